@@ -82,6 +82,9 @@ class FnSpec:
         self.inserts = []
         self.nobody = False
         self.extra_attrs = []
+        self.stub = False
+        self.from_unit = None
+        self.dropped_requires = []
         self.parse_address()
 
     def parse_address(self):
@@ -170,12 +173,37 @@ def parse(path, include_dir):
                     getattr(u, d[1:]).extend(block)
                 continue
             if d == '@import':
+                # @import UNIT ADDR                          : the function with its whole contract, verified again here
+                # @import UNIT ADDR as stub [without ID,ID]  : signature (from the real source) + contract only, body
+                #   external: the caller here is checked against the contract that unit UNIT proves; the listed
+                #   requires clauses are dropped and reported as assumptions
                 p = rest.split(None, 1)
+                addr = p[1].strip()
+                stub = False
+                dropped = []
+                ms = re.match(r'^(.*?)\s+as\s+stub(?:\s+without\s+(\S+))?$', addr)
+                if ms:
+                    addr = ms.group(1).strip()
+                    stub = True
+                    dropped = ms.group(2).split(',') if ms.group(2) else []
                 other = parse(os.path.join(os.path.dirname(path), p[0] + '.vspec'), include_dir)
-                hit = [f for f in other.fns() if f.address.strip() == p[1].strip()]
+                hit = [f for f in other.fns() if f.address.strip() == addr]
                 if not hit:
-                    raise SpecError('%s:%d @import: %s not found in unit %s' % (path, i, p[1], p[0]))
-                u.items.append(('fn', hit[0]))
+                    raise SpecError('%s:%d @import: %s not found in unit %s' % (path, i, addr, p[0]))
+                f0 = hit[0]
+                if stub:
+                    import copy
+                    f0 = copy.copy(f0)
+                    f0.stub = True
+                    f0.from_unit = p[0]
+                    f0.dropped_requires = dropped
+                    unknown = [d_ for d_ in dropped if d_ not in [c.id for c in f0.requires]]
+                    if unknown:
+                        raise SpecError('%s:%d @import: no requires clause %s in %s' % (path, i, unknown, addr))
+                    f0.requires = [c for c in f0.requires if c.id not in dropped]
+                    f0.loops = []
+                    f0.inserts = []
+                u.items.append(('fn', f0))
                 continue
             if d == '@lemma':
                 p = rest.split()
